@@ -47,6 +47,7 @@ def run_property(pid, tier, seed, only=None):
     classes = [c for c in C.REGISTRY if pid in c.properties]
     if only:
         classes = [c for c in classes if only in c.target]
+    classes = [c for c in classes if tier in getattr(c, "tiers", ("quick", "thorough"))]
     known = _load_json(os.path.join(ROOT, "known_findings.json"), {"findings": []})
     open_findings = {
         f["obligation"]: f for f in known.get("findings", []) if f.get("property") == pid and f.get("status") == "open"
@@ -96,7 +97,9 @@ def run_property(pid, tier, seed, only=None):
         if r.clause.startswith("must_fail") and r.verdict != "refuted"
         and positive.get((r.target, r.clause[len("must_fail/"):], r.case)) == "proved"
     ]
-    bad_canaries += [r for r in canaries if not r.clause.startswith("must_fail") and r.verdict != "proved"]
+    # a canary whose exploration hit an engine limit (restructured function) is undecided, like its contract
+    undecided += [r for r in canaries if not r.clause.startswith("must_fail") and r.verdict == "unknown"]
+    bad_canaries += [r for r in canaries if not r.clause.startswith("must_fail") and r.verdict not in ("proved", "unknown")]
 
     os.makedirs(os.path.join(ROOT, "replays", pid), exist_ok=True)
     lines = []
